@@ -12,6 +12,7 @@ CONSTANTS Docs,        \* sequence of documents
           Langs,       \* sequence of LANG values ("" = unset)
           Part,       \* "all" | "clean_stdout" | "stdout": the part of the option space to emit
           Currents,    \* subset of {"given", "omit", "garbage"}: how --time-limited-current is passed
+          ArgForms,    \* sequence over {"eq", "sep"}: option values as --opt=value / as separate arguments
           OmitAll      \* TRUE: all options with defaults are omitted (Docs must use the default spelling)
 
 VARIABLES o, done
@@ -26,14 +27,14 @@ Next ==
   /\ ~done /\ done' = TRUE
   /\ \E d \in 1..Len(Docs), inp \in {"file", "stdin"}, outp \in {"stdout", "file", "same"},
         m \in Modes, via \in {"flags", "file", "both", "none"}, z \in 1..Len(Zones), lg \in 1..Len(Langs),
-        zm \in {0, 540, -480}, cur \in Currents, cnl \in BOOLEAN :
+        zm \in {0, 540, -480}, cur \in Currents, cnl \in BOOLEAN, af \in 1..Len(ArgForms) :
        /\ (outp = "same" => inp = "file")
        /\ (cur # "given" => zm = 0)
        /\ (via \in {"flags", "none"} => cnl)          \* cnl: the target config file ends with a line break
        \* without the final line break a last line that is the empty name cannot be written down
        /\ (~cnl => (FileTargets # <<>> /\ FileTargets[Len(FileTargets)] # <<>>))
        /\ o' = [d |-> d, inp |-> inp, outp |-> outp, mode |-> m[1], json |-> m[2], via |-> via, tz |-> Zones[z],
-                lang |-> Langs[lg], zm |-> zm, cur |-> cur, cnl |-> cnl]
+                lang |-> Langs[lg], zm |-> zm, cur |-> cur, cnl |-> cnl, af |-> ArgForms[af]]
 
 InSlice == \/ Part = "all"
            \/ Part = "clean_stdout" /\ o.mode = "clean" /\ o.outp = "stdout" /\ o.via = "none" /\ o.inp = "file"
@@ -57,6 +58,6 @@ EmitAll == (done /\ InSlice) =>
                      [op |-> LibOp],
                      [op |-> "cli", input |-> o.inp, output |-> o.outp, mode |-> o.mode, json |-> o.json,
                       targets_via |-> o.via, current |-> o.cur, conf_final_newline |-> o.cnl, tz |-> o.tz, lang |-> o.lang, now_zone_min |-> o.zm,
-                      file_targets |-> FileTargets, flag_targets |-> FlagTargets,
+                      file_targets |-> FileTargets, flag_targets |-> FlagTargets, argform |-> o.af,
                       omit |-> IF OmitAll THEN <<"ds", "de", "tl", "rm", "off">> ELSE <<>>]>>])
 =============================================================================
